@@ -13,7 +13,7 @@
 enum { SNAPPY, LZ4, GZIP, ZSTD };
 static const char* CN[] = { "snappy", "lz4", "gzip", "zstd" };
 static mc_arena_t A_src, A_dst, A_cin, A_out;
-#define MAXIN (5u << 20)
+#define MAXIN (18u << 20)
 
 static size_t cbound(int c, size_t n) {
     switch (c) { case SNAPPY: return carquet_snappy_compress_bound(n); case LZ4: return carquet_lz4_compress_bound(n);
@@ -198,10 +198,11 @@ static void c09(void) {
          * length (length-extension bytes 15, 15+255, 15+510, ...) x match lengths around the match-length extension boundaries */
         mc_stage("c09.literal-run-then-match.every-run-length");
         { static const int ML[] = { 4, 5, 8, 18, 19, 20, 273, 274, 275 }; int maxL = 4200;
-          for (int L = 4; L <= maxL; L++) for (int mi = 0; mi < 9; mi++) {
-              int m = ML[mi]; if (m > L) continue;
+          for (int Lx = 4; Lx <= maxL + 60 + (mc_thorough() ? 40 : 0); Lx++) for (int mi = 0; mi < 9; mi++) {
+              int L = Lx <= maxL ? Lx : Lx <= maxL + 60 ? 65510 + (Lx - maxL) : 16777196 + (Lx - maxL - 60);      /* then 65511..65570 (2-byte literal length forms end at 65536) and, thorough, 16777197..16777236 (3-byte forms end at 2^24) */
+              int m = ML[mi]; if (m > L) continue; if (Lx > maxL && mi != 0 && mi != 4) continue;
               if (!mc_next()) continue;
-              size_t n = 0; for (int i = 0; i < L; i++) g_big[n++] = (uint8_t)(dbs[i] * 16 + 3);
+              size_t n = 0; for (int i = 0; i < L; i++) g_big[n++] = (uint8_t)(dbs[i % 65536] * 16 + 3 + (i >> 16) * 37);
               for (int i = 0; i < m; i++) g_big[n++] = g_big[i];
               for (int i = 0; i < 12; i++) g_big[n++] = (uint8_t)(dbs[30000 + i] * 16 + 5);
               mc_desc("c09:literals=%d;match=%d;tail=12", L, m); mc_feature("literal-run-then-match"); mc_case_key(mc_mix(0x99, ((uint64_t)L << 16) | (uint64_t)m)); mc_nontrivial();
@@ -493,6 +494,15 @@ static void c10(void) {
                 mc_desc("c10a:wrap;n=%zu;period=%d;flip@%zu", n, p, pos); mc_case_key(mc_mix(0xa4, ((uint64_t)li << 48) | ((uint64_t)p << 32) | (uint64_t)q)); mc_nontrivial();
                 c10_carquet_output(g_big, n);
             }
+    mc_stage("c10.a.carquet-streams.multi-megabyte");
+    { static const size_t BIG[] = { (1u << 21) - 1, 1u << 21, (1u << 21) + 1, (1u << 22) - 1, 1u << 22, (1u << 22) + 123, (5u << 20) + 123, (8u << 20) + 4096, (16u << 20) + 102400, (17u << 20) + 5 };
+      for (int k = 0; k < 10; k++) for (int kind = 0; kind < 2; kind++) {
+          if (!mc_next()) continue;
+          size_t n = BIG[k]; uint32_t x = 12345;
+          for (size_t i = 0; i < n; i++) { if (kind == 0) { x = x * 1664525u + 1013904223u; g_big[i] = (uint8_t)(x >> 24); } else g_big[i] = (uint8_t)(((i >> 4) * 7) ^ (i & 3)); }     /* incompressible / compressible */
+          mc_desc("c10a:multi-megabyte;n=%zu;%s", n, kind ? "compressible" : "incompressible"); mc_case_key(mc_mix(0xa9, ((uint64_t)k << 8) | (uint64_t)kind)); mc_nontrivial(); mc_budget_ms(60000);
+          c10_carquet_output(g_big, n);
+      } }
     /* (b)+(c) grammar enumeration */
     build_snappy_alphabets();
     static sb_t sb; ref_buf_init(&sb.s); ref_buf_init(&sb.o);
